@@ -9,7 +9,7 @@ def _load(name):
 _c01, _c02 = _load("c01"), _load("c02")
 CHUNK_MIN = 1200   # one generated crate per chunk: keep chunks large
 
-RULE = ("macro invocations of both polynomial macros on grammar texts of 5..600 characters (ASCII white space incl. line breaks, "
+RULE = ("(hardening: texts of 700..2000 characters, 15+ digit coefficients / fraction parts / exponents, exponents 1e-300..1e300, one literal per decade 1e-320..1e308, signed zeros, the largest dense power, 16 univariate and 26 multivariate variable letters, the macros reached through spindalis_macros::, spindalis::polynomials::, spindalis::polynomials::macros:: and forwarded through a declarative macro, invalid texts of every error kind of both runtime parsers alone and inside correct polynomials, every rejected invocation between two correct ones on adjacent lines) macro invocations of both polynomial macros on grammar texts of 5..600 characters (ASCII white space incl. line breaks, "
         "all coefficient spellings incl. 17-digit decimals, fractions, negative and fractional exponents, non-ASCII variable "
         "letters) compiled into a generated crate and run; plus ungrammatical texts that tokenize, checked for a compile error at "
         "their own line. Non-trivial = an invocation whose text the model accepts and that is longer than 30 characters (so the "
